@@ -1,6 +1,11 @@
 package stake
 
-import "github.com/rigochain/rigo-go/zzverif"
+import (
+	"github.com/holiman/uint256"
+	"github.com/rigochain/rigo-go/ledger"
+	"github.com/rigochain/rigo-go/zzverif"
+	abcitypes "github.com/tendermint/tendermint/abci/types"
+)
 
 // ZZ_C14_S1: Delegatee.DoSlash (doSlashAll) on ≤3 stakes with symbolic powers
 // and ratio: each stake loses floor(p*ratio/100); a stake that would lose
@@ -99,4 +104,146 @@ func ZZ_C14_S3() {
 	}
 	zzverif.Event("S3", n, got)
 	zzverif.Reach("S3 end")
+}
+
+// ZZ_C14_S45: BeginBlock with evidence and a missed vote.
+//   S4: a validator is jailed iff window - missed < minimum, where missed counts
+//       the marked heights inside the window; jailing moves every stake bonded
+//       to it to the unbonding ledger (refund height = height + unbonding
+//       period) and removes the delegatee; otherwise only the mark is added.
+//   S5: evidence against an unknown validator changes nothing; two pieces of
+//       evidence against the same validator apply one after the other; the
+//       other validator and all accounts are untouched.
+func ZZ_C14_S45() {
+	w := zzSeed(2, false)
+	// the reward basis height-4 must be a committed version (1 or 2 here)
+	h := int64(5 + zzverif.Choose("height", 2))
+	w.height = h
+	w.gov.signedBlocksWindow = zzverif.NondetI64In("gov.window", 1, 6)
+	w.gov.minSignedBlocks = zzverif.NondetI64In("gov.minSigned", 1, 6)
+	// earlier misses of A1 (strictly increasing, before h-1)
+	d1 := w.bonded1()
+	var marks []int64
+	if d1 != nil {
+		nm := zzverif.Choose("nmarks", 3)
+		last := int64(0)
+		for i := 0; i < nm; i++ {
+			m := zzverif.NondetI64In("mark", 1, 4)
+			zzverif.Assume(m > last && m < h-1)
+			_ = d1.NotSignedHeights.Mark(m)
+			marks = append(marks, m)
+			last = m
+		}
+		_ = w.sc.delegateeLedger.SetFinality(d1)
+	}
+	_, _, _ = w.sc.Commit() // version 2
+	// evidence: none / against A0 once / twice / against a stranger
+	evKind := zzverif.Choose("evidence", 4)
+	var evs []abcitypes.Evidence
+	switch evKind {
+	case 1:
+		evs = []abcitypes.Evidence{zzEvidence(0)}
+	case 2:
+		evs = []abcitypes.Evidence{zzEvidence(0), zzEvidence(0)}
+	case 3:
+		evs = []abcitypes.Evidence{zzEvidence(2)}
+	}
+	var votes []abcitypes.VoteInfo
+	a1Missed := zzverif.Choose("a1.missed", 2) == 1
+	for i := 0; i < 2; i++ {
+		t := int64(0)
+		for _, r := range w.stakes {
+			if r.to == i {
+				t += r.power
+			}
+		}
+		if t > 0 {
+			votes = append(votes, abcitypes.VoteInfo{Validator: abcitypes.Validator{Address: zzAddr(i), Power: t}, SignedLastBlock: !(i == 1 && a1Missed)})
+		}
+	}
+	var bal [3]*uint256.Int
+	for i := 0; i < 3; i++ {
+		bal[i] = w.accts.FindAccount(zzAddr(i), true).GetBalance()
+	}
+	// rewards are C13's subject: switch them off here
+	w.gov.rewardPerPower = uint256.NewInt(0)
+	bctx := zzBlockCtx(h, w.gov, w.accts, w.sc, votes, evs)
+	_, xerr := w.sc.BeginBlock(bctx)
+	zzverif.Assert(xerr == nil, "S45 BeginBlock succeeds")
+	// ---- expected slashing of A0
+	ratio := w.gov.SlashRatio()
+	for _, r := range w.stakes {
+		if r.to != 0 {
+			continue
+		}
+		times := 0
+		if evKind == 1 {
+			times = 1
+		} else if evKind == 2 {
+			times = 2
+		}
+		for t := 0; t < times && r.live; t++ {
+			loss := r.power * ratio / 100
+			if loss < 1 {
+				r.live = false
+			} else {
+				r.power -= loss
+			}
+		}
+	}
+	// ---- expected jailing of A1
+	jailed := false
+	if d1 != nil && a1Missed {
+		all := append(append([]int64{}, marks...), h-1)
+		s := h - 1 - w.gov.SignedBlocksWindow()
+		if s < 0 {
+			s = 0
+		}
+		// pruning of an earlier call is not modelled: marks were added directly
+		missed := int64(0)
+		for _, m := range all {
+			if m >= s && m <= h-1 {
+				missed++
+			}
+		}
+		jailed = w.gov.SignedBlocksWindow()-missed < w.gov.MinSignedBlocks()
+	}
+	want := h + w.gov.LazyRewardBlocks()
+	for _, r := range w.stakes {
+		if !r.live {
+			zzverif.Assert(w.bonded(r.to, r.hash) == nil, "S1 a stake too small to be reduced is forfeited")
+			continue
+		}
+		fs, _ := w.sc.frozenLedger.GetFinality(ledger.ToLedgerKey(r.hash))
+		if r.to == 1 && jailed {
+			zzverif.Assert(w.bonded(1, r.hash) == nil, "S4 jailed: stake no longer bonded")
+			zzverif.Assert(fs != nil, "S4 jailed: stake moved to unbonding")
+			if fs != nil {
+				zzverif.Assert(fs.RefundHeight == want && fs.Power == r.power, "S4 jailed: full unbonding period, power unchanged")
+			}
+		} else {
+			b := w.bonded(r.to, r.hash)
+			zzverif.Assert(b != nil && fs == nil, "S4/S5 every other stake stays bonded")
+			if b != nil {
+				zzverif.Assert(b.Power == r.power, "S5 only the offender's stakes lose the slash percentage (per piece of evidence)")
+			}
+		}
+	}
+	if d1 != nil {
+		dd, _ := w.sc.delegateeLedger.GetFinality(ledger.ToLedgerKey(zzAddr(1)))
+		zzverif.Assert((dd == nil) == jailed, "S4 the validator leaves the ledger iff window - missed < minimum")
+	}
+	for i := 0; i < 3; i++ {
+		zzverif.Assert(w.accts.FindAccount(zzAddr(i), true).GetBalance().Eq(bal[i]), "S45 no account balance changes")
+	}
+	zzverif.Event("S45", evKind, a1Missed, jailed)
+	zzverif.Reach("S45 end")
+	if jailed {
+		zzverif.Reach("S45 jailed")
+	}
+}
+
+func (w *zzWorld) bonded1() *Delegatee {
+	d, _ := w.sc.delegateeLedger.GetFinality(ledger.ToLedgerKey(zzAddr(1)))
+	return d
 }
